@@ -259,8 +259,7 @@ func (p *parserDoer) onProfile(timestampNs uint64,
 
 	if p.profile.Size > 1*1024*1024 {
 		p.res <- &model.ParserResponse{
-			SpansRequest:      p.spans,
-			SpansAttrsRequest: p.attrs,
+			ProfileRequest: p.profile,
 		}
 		p.resetProfile()
 	}
